@@ -776,3 +776,25 @@ def _striped_mean(e, st, node, x):
 @prim('mpi.ops.striped_array_max')
 def _striped_max(e, st, node, x):
     return _reduce_extreme(e, st, node, e.deref(st, x), True)
+
+
+@method('reshape')
+def _reshape(e, st, node, recv, *shape):
+    """only the shapes the targets use: 1-d -> (-1,1)/(n,1) column (a view), 1-d -> (-1,) / same length"""
+    a = e.deref(st, recv)
+    dims = [e.deref(st, d) for d in shape]
+    if len(dims) == 1 and isinstance(dims[0], Tup):
+        dims = [e.deref(st, d) for d in dims[0].items]
+    def is_m1(d):
+        return isinstance(d, int) and d == -1
+    if isinstance(a, Arr) and a.ndim == 1:
+        if len(dims) == 2 and (is_m1(dims[0]) or True) and isinstance(dims[1], int) and dims[1] == 1:
+            return e.new_obj(st, Arr(a.term, a.shape, a.kind, a.init, dict(a.meta, column=True)))
+        if len(dims) == 1:
+            return e.new_obj(st, Arr(a.term, a.shape, a.kind, a.init, {k: v for k, v in a.meta.items() if k != 'list'}))
+    raise Unsupported('reshape form')
+
+
+@prim('str', 'repr')
+def _str(e, st, node, x=None):
+    return Str()
